@@ -260,3 +260,10 @@ Theorem C15_getunit_model_bridge : forall a : R,
   getunit Rops a UDeg = Ok (tr_getunit_deg Rops a) /\ getunit Rops a URad = Ok a.
 Proof. intros; split; [|reflexivity]. unfold getunit, deg2rad; f_equal. open_traces; field. Qed.
 Print Assumptions C15_getunit_model_bridge.
+
+(* returned angle: tr2xyt(T, unit='deg') is tr2xyt(T) with the angle times 180/pi (x, y untouched) *)
+Theorem C15_deg_rad_tr2xyt : forall X : M33 R,
+  tr_tr2xyt_deg Rops X =
+  (let '(x, y, a) := tr_tr2xyt_rad Rops X in (x, y, a * 180 / PI)).
+Proof. open_traces. tuple_eq ltac:(try reflexivity). field. apply PI_neq0. Qed.
+Print Assumptions C15_deg_rad_tr2xyt.
